@@ -42,6 +42,7 @@ pub struct Sig {
     params: Vec<PTy>,
     ret: RTy,
     fallible: bool,
+    err: Option<RTy>,        // the error type of a fallible method when it is not `()`
 }
 
 fn lt_name(i: usize, n_impl: usize) -> String {
@@ -85,7 +86,11 @@ impl Sig {
             RTy::Struct { ty, args } => format!("{}{}", STRUCTS[*ty].0, self.generics(args)),
             RTy::Slice { lt } => format!("{}DiplomatStr", self.amp(lt)),
         };
-        if self.fallible { format!("Result<{t}, ()>") } else { t }
+        let e = match &self.err {
+            Some(RTy::RefOpaque { lt, ty, args }) => format!("{}{}{}", self.amp(lt), OPAQUES[*ty].0, self.generics(args)),
+            _ => "()".to_string(),
+        };
+        if self.fallible { format!("Result<{t}, {e}>") } else { t }
     }
     fn method_generics(&self) -> (String, String) {
         let ni = self.n_impl();
@@ -181,7 +186,12 @@ impl Sig {
             RTy::BoxOpaque { args, .. } | RTy::Struct { args, .. } => (format!("(named{})", args.iter().map(|a| format!(" {}", Self::idx(a))).collect::<String>()), args.iter().collect()),
             RTy::Slice { lt } => ("other".into(), vec![lt]),
         };
-        tys.push(if self.fallible { format!("(res {rt} other)") } else { rt });
+        let mut used = used;
+        let et = match (&self.err, self.fallible) {
+            (Some(RTy::RefOpaque { lt, args, .. }), true) => { used.push(lt); used.extend(args.iter()); Self::aty_ref_named(lt, args) }
+            _ => "other".to_string(),
+        };
+        tys.push(if self.fallible { format!("(res {rt} {et})") } else { rt });
         let used: BTreeSet<usize> = used.into_iter().filter_map(|l| if let L::Named(i) = l { Some(*i) } else { None }).collect();
         format!(
             "(c04 {} (bounds{}) (tys {}) (used{}) (params{}))",
@@ -245,7 +255,15 @@ pub fn gen_sig(rng: &mut Rng, max_lts: usize, allow_optional: bool) -> Sig {
         4 | 5 => { let ty = rng.below(2); RTy::Struct { ty, args: (0..STRUCTS[ty].1).map(|_| gen_l(rng, n, false)).collect() } }
         _ => RTy::Slice { lt: gen_l(rng, n, false) },
     };
-    Sig { owner, n_method, bounds, self_lt, params, ret, fallible: rng.chance(1, 5) }
+    let fallible = rng.chance(1, 4);
+    // an error type that borrows too (its lifetimes are used by the return type like the success type's)
+    let err = if fallible && rng.chance(1, 2) {
+        let ty = rng.below(3);
+        let lt = gen_l(rng, n, false);
+        let args = (0..OPAQUES[ty].1).map(|_| if lt == L::Static { L::Static } else { gen_l(rng, n, false) }).collect();
+        Some(RTy::RefOpaque { lt, ty, args })
+    } else { None };
+    Sig { owner, n_method, bounds, self_lt, params, ret, fallible, err }
 }
 
 /// the real analysis, printed in the model's format; `Err` = lowering rejected the signature
@@ -758,6 +776,7 @@ pub fn main(args: &[String]) {
         params: vec![PTy::RefOpaque { lt: L::Named(0), ty: 0, args: vec![], optional: false }],
         ret: RTy::RefOpaque { lt: L::Static, ty: 2, args: vec![L::Named(0), L::Named(1)] },
         fallible: false,
+        err: None,
     };
     let mut sigs = sigs;
     let mut lines = lines;
